@@ -22,6 +22,36 @@ PROPS = {
         "text": "Every program of the universes is parsed, compiled and executed on both paths the statement names (compile->interpret and compile->serialize->load->interpret); stdout text and ok/fail must equal the reference semantics; a subset also runs as a real `fml run` process (exit status, stdout). Miscompilations are interactions of two or three constructs; all pairs and triples in all placements are inside the bound.",
         "note": "trusted: reference semantics R and the printer; not covered: programs larger than the bounds, integer values outside the small alphabet (C09 covers the arithmetic tables)",
     },
+    "C13": {
+        "level": "model_checking",
+        "evaluations_counter": "programs",
+        "technique": "bounded-exhaustive enumeration of tracer programs (U-ORDER) replayed on the real pipeline against reference semantics R",
+        "design_ref": "DESIGN.md 6/C13",
+        "rule": "every construct with a self-identifying tracer (prints a unique marker) in every operand slot; then every tracer slot replaced in turn by every construct of the slot's kind (depth d); array sizes 0..3 with literal/variable/field-path/compound initializers, loop counts 0..3, both branches; each kept and discarded, at top level and in a function body; non-trivial = reference prints >= 1 byte and evaluates >= 2 construct kinds; distinct by source text",
+        "assumptions": R_ASSUMPTIONS,
+        "text": "The exact sequence of tracer markers (and callee argument echoes) printed by the real pipeline must equal the reference semantics' left-to-right order and evaluation counts for every program of U-ORDER(d) (d=2 quick, d=3 thorough).",
+        "note": "trusted: reference semantics R; not covered: nesting deeper than d, more than 3 arguments",
+    },
+    "C14": {
+        "level": "model_checking",
+        "evaluations_counter": "programs",
+        "technique": "bounded-exhaustive enumeration of parent-chain and aliasing programs (U-OBJ) replayed on the real pipeline against reference semantics R",
+        "design_ref": "DESIGN.md 6/C14",
+        "rule": "parent chains of length 0..d ending in {null,int,bool,array,object} x every combination of 8 override subsets per level x 19 calls (methods, operators, get/set sugar, wrong argument counts, unknown names); aliasing: 6 value kinds x 4 mutation kinds x all ordered pairs of 6 storage-location kinds; non-trivial = reference prints >= 1 byte and evaluates >= 2 construct kinds; distinct by source text",
+        "assumptions": R_ASSUMPTIONS + ["U3 (value of built-in array set) and U4 (`this` in a method found in an ancestor) are skipped as unspecified"],
+        "text": "Every program of U-OBJ (chains to depth 3 quick / 4 thorough; the full aliasing matrix) is run on the real pipeline and compared with the reference semantics: which method body runs, failures at the end of the chain, argument-count checks, visibility of mutations through every alias.",
+        "note": "trusted: reference semantics R; not covered: chains longer than d, more than one method per name per level",
+    },
+    "C15": {
+        "level": "model_checking",
+        "evaluations_counter": "programs",
+        "technique": "exhaustive enumeration of format strings (U-FMT) and values (U-VAL) replayed on the real pipeline against the reference formatter/renderer of R",
+        "design_ref": "DESIGN.md 6/C15",
+        "rule": "all strings of length <= L over {~ \\ n \" a LF e-acute} that the lexer admits x 0..3 integer arguments, printed inside an enclosing print (so the null result is observed); all values up to a size bound over leaves {null,true,-1,0}, arrays of length 0..2, objects with every ordered selection of <= 3 of 6 field names and 4 parent kinds; non-trivial = reference prints >= 1 byte and evaluates >= 2 construct kinds; distinct by source text",
+        "assumptions": R_ASSUMPTIONS + ["U7: escapes outside n t r \\ \" ~ are unspecified (the lexer rejects them at source level)", "the bytecode-level half of U-FMT (strings the lexer rejects) is explored by C05"],
+        "text": "Every admitted format string of length <= 5 (quick) / 6 (thorough) with 0..3 arguments and every value up to the size bound is printed by the real pipeline and compared byte for byte with the reference formatter and renderer, including clean failure on count mismatch.",
+        "note": "trusted: reference formatter (harness/refsem.rs fmt/render); not covered: longer strings, characters outside the alphabet except the listed extras",
+    },
     "C12": {
         "level": "model_checking",
         "evaluations_counter": "programs",
